@@ -45,6 +45,7 @@ pub fn run(
         if termination.terminate_search(query.k, accepted.len()) {
             break;
         }
+        let accepted_before_pass = accepted.len();
 
         let mut best_candidate: Option<(Vec<EdgeTraversal>, Cost)> = None;
 
@@ -58,7 +59,9 @@ pub fn run(
                 )))?;
 
         // step through each index along the most recently-accepted path
-        for spur_idx in 0..prev_accepted_path.len() - 2 {
+        // (a route of fewer than two edges has no spur vertex to step through: `len() - 2`
+        // used to underflow for it)
+        for spur_idx in 0..prev_accepted_path.len().saturating_sub(2) {
             let spur_len: usize = spur_idx + 1;
             let mut cut_edges: HashSet<EdgeId> = HashSet::new();
             let root_path = prev_accepted_path.iter().take(spur_len).collect_vec();
@@ -134,6 +137,12 @@ pub fn run(
             if let Some((ref best_path, _)) = best_candidate {
                 accepted.push(best_path.clone());
             }
+        }
+
+        // a pass over the spur vertices that accepted no new route will not accept one the
+        // next time either (it repeats the same searches): stop instead of looping forever
+        if accepted.len() == accepted_before_pass {
+            break;
         }
     }
 
